@@ -45,7 +45,7 @@ Definition mac_init : P (list Z) :=
              if negb (zlen t =? 8) then praise EStruct
              else
                let bpf := if 3950 <=? version then 73728 * 4
-                          else if (3900 <=? version) || ((3800 <=? version) && (level =? 4)) then 73728
+                          else if (3900 <=? version) || ((3800 <=? version) && (level =? 4000)) then 73728
                           else 9216 in
                bits <~ (if starts_with mac_WAVEfmt (zdrop 48 header)
                         then plift (unpack_le 2 (zslice 74 76 header)) else pret 0) ;;
